@@ -289,7 +289,7 @@ Definition key_sound_on (h : list step) : Prop :=
 (* needToRun does not look at the test arguments: harmless where they do not change the outcome *)
 Definition args_sound_on (h : list step) : Prop :=
   forall x y, In x h -> In y h -> runtime_key (s_def x) = runtime_key (s_def y) -> s_args x = [] ->
-              step_outcome y = outcome (s_def y).
+              outcome (s_def x) = true -> step_outcome y = true.
 
 Definition reuse_sound_at (c : bool) (pre : list step) (x : step) : Prop :=
   report_at c pre x = CachedPass ->
@@ -314,9 +314,8 @@ Proof.
   - destruct (cached_only_from_passing_run c pre x Hr) as (pre1 & y & post1 & -> & Hy & Hk & Ha).
     assert (Hiny : In y ((pre1 ++ y :: post1) ++ [x])) by (rewrite !in_app_iff; cbn; tauto).
     assert (Hinx : In x ((pre1 ++ y :: post1) ++ [x])) by (rewrite !in_app_iff; cbn; tauto).
-    rewrite (Has y x Hiny Hinx Hk Ha).
-    rewrite <- (outcome_same_inputs _ _ (Hs y x Hiny Hinx Hk)).
-    rewrite <- (step_outcome_no_args y Ha). symmetry; exact (report_ran_pass _ _ _ Hy).
+    symmetry; apply (Has y x Hiny Hinx Hk Ha).
+    rewrite <- (step_outcome_no_args y Ha). exact (report_ran_pass _ _ _ Hy).
   - symmetry; exact (report_ran_pass _ _ _ Hr).
   - symmetry; exact (report_ran_fail _ _ _ Hr).
 Qed.
@@ -345,13 +344,13 @@ Qed.
 Lemma step_pair_defect_none x y :
   step_pair_defect x y = None ->
   runtime_key (s_def x) = runtime_key (s_def y) ->
-  same_inputs (s_def x) (s_def y) /\ (s_args x = [] -> step_outcome y = outcome (s_def y)).
+  same_inputs (s_def x) (s_def y) /\ (s_args x = [] -> outcome (s_def x) = true -> step_outcome y = true).
 Proof.
   unfold step_pair_defect; intros H Hk.
   destruct (pair_defect (s_def x) (s_def y)) eqn:Hp; [discriminate|].
   split; [exact (pair_defect_none _ _ Hp Hk)|].
-  intros Ha. apply key_eqb_eq in Hk; rewrite Hk, Ha in H; cbn [andb has_args negb] in H.
-  destruct (step_outcome y), (outcome (s_def y)); cbn in H; congruence.
+  intros Ha Ho. apply key_eqb_eq in Hk; rewrite Hk, Ha, Ho in H; cbn [andb has_args negb] in H.
+  destruct (step_outcome y); cbn in H; congruence.
 Qed.
 
 Lemma defect_class_none h : defect_class h = None -> key_sound_on h /\ args_sound_on h.
